@@ -5,7 +5,8 @@ package parsers
 
 // Contracts for govc, the contract-based deductive verifier kept in /verif (see /verif/DESIGN.md).
 // Compiled only under the "verif" build tag. splitAt(s) is the mathematical result of
-// strings.Split(s, "@"); hex/isHex describe encoding/hex (assumed contracts, /verif/spec/deps.spec).
+// strings.Split(s, "@"); hex is hex.EncodeToString (lower case), unhex / isHex describe hex.DecodeString,
+// which accepts either case (assumed contracts, /verif/spec/deps.spec).
 
 //@ func tokenize
 //@   results tokens, err
@@ -15,22 +16,22 @@ package parsers
 
 //@ func decodeToken
 //@   results decoded, err
-//@   ensures[C12] err == nil ==> hex(seq(decoded)) == seq(token)
+//@   ensures[C12] err == nil ==> seq(decoded) == unhex(seq(token)) && isHex(seq(token))
 //@   ensures[C12] isHex(seq(token)) ==> err == nil
 
 //@ func (parser *callArgsParser) parseArguments
 //@   results arguments, err
 //@   loop 0 invariant 1 <= i && i <= len(tokens) && len(arguments) == i - 1 && arguments != nil && fresh(arguments)
-//@   loop 0 invariant forall(j, int, 0 <= j && j < i - 1 ==> hex(seq(arguments[j])) == seq(tokens[j + 1]))
+//@   loop 0 invariant forall(j, int, 0 <= j && j < i - 1 ==> seq(arguments[j]) == unhex(seq(tokens[j + 1])))
 //@   requires len(tokens) >= 1
-//@   ensures[C12] err == nil ==> len(arguments) == len(tokens) - 1 && forall(j, int, 0 <= j && j < len(arguments) ==> hex(seq(arguments[j])) == seq(tokens[j + 1]))
+//@   ensures[C12] err == nil ==> len(arguments) == len(tokens) - 1 && forall(j, int, 0 <= j && j < len(arguments) ==> seq(arguments[j]) == unhex(seq(tokens[j + 1])))
 //@   ensures[C12] forall(j, int, 1 <= j && j < len(tokens) ==> isHex(seq(tokens[j]))) ==> err == nil
 //@   modifies new([][]byte)
 
 //@ func (parser *callArgsParser) ParseData
 //@   results function, arguments, err
 //@   ensures[C10,C12] err == nil ==> seq(function) == lnth(splitAt(seq(data)), 0) && len(function) > 0 && len(arguments) == llen(splitAt(seq(data))) - 1
-//@   ensures[C10,C12] err == nil ==> forall(j, int, 0 <= j && j < len(arguments) ==> hex(seq(arguments[j])) == lnth(splitAt(seq(data)), j + 1))
+//@   ensures[C10,C12] err == nil ==> forall(j, int, 0 <= j && j < len(arguments) ==> seq(arguments[j]) == unhex(lnth(splitAt(seq(data)), j + 1)))
 //@   ensures[C12] len(lnth(splitAt(seq(data)), 0)) > 0 && forall(j, int, 1 <= j && j < llen(splitAt(seq(data))) ==> isHex(lnth(splitAt(seq(data)), j))) ==> err == nil
 //@   modifies new([]string), new([][]byte)
 
